@@ -11,11 +11,13 @@
 //   * line comments are always terminated by "\n" (a lone "\r" ending a comment is an uncertain corner of the grammar);
 //   * policies yielded by the decoder before a parse error in policy j are not compared with anything (the whole-slice API yields none).
 //
-// Sensitivity (scratch copy of /repo, quick tier, see HARNESS_GUIDE): see the block at the end of this comment, filled in after the runs.
-//   M1 cedar_tokenize.go next(): `s.srcBufOffset += s.srcPos` removed                      -> caught by positions/offset + stream/position
-//   M2 cedar_tokenize.go next(): spill-buffer write `s.tokBuf.Write(...)` skipped            -> caught by stream/policies + stream/error-mismatch
-//   M3 cedar_tokenize.go next(): read error ignored when n > 0 (`if err != io.EOF && n == 0`) -> caught by fault/truncated-success
-//   M4 cedar_unmarshal.go fromCedar: Position taken after the annotations                    -> caught by positions/offset
+// Sensitivity (scratch copy of /repo, `go test ./c18/` = quick tier, one shard; all four caught):
+//   M1 cedar_tokenize.go next(): `s.srcBufOffset += s.srcPos` removed                       -> positions/offset (TestStream) and stream/position (fuzz seed)
+//   M2 cedar_tokenize.go next(): spill-buffer write `s.tokBuf.Write(...)` skipped             -> positions/valid-doc-rejected, stream/error-text (TestStream, TestPositionTable)
+//   M3 cedar_tokenize.go next(): read error ignored when n > 0 (`if err != io.EOF && n == 0`) -> fault/truncated-success (TestFaultRandom, TestFaultEnumeration);
+//      only visible because the fault model lets the reader answer io.EOF after its first error (Fault.Then == "eof")
+//   M4 cedar_unmarshal.go fromCedar: Position taken after the annotations                     -> positions/offset (TestStream, TestPositionTable); replay file reproduces
+//   not tried: "lastLineLen not updated" (the branch that reads it is unreachable for token starts: whitespace is skipped first)
 package c18
 
 import (
@@ -422,6 +424,9 @@ func TestFaultRandom(t *testing.T) {
 		if rapid.IntRange(0, 4).Draw(rt, "errkind") == 0 {
 			c.Fault.Err = "unexpected-eof"
 		}
+		if rapid.Bool().Draw(rt, "theneof") {
+			c.Fault.Then = "eof"
+		}
 		// often right after a policy's terminating ';', where a truncated document is itself valid
 		if rapid.Bool().Draw(rt, "atsemi") {
 			var semis []int
@@ -450,13 +455,14 @@ var faultModes = []struct {
 	name     string
 	s        Sched
 	withData bool
+	then     string // what the reader returns after its first error: "" the same error, "eof" io.EOF
 }{
-	{"1024/err-follows", Sched{Kind: "chunks", Rest: 1024}, false},
-	{"1024/err-with-data", Sched{Kind: "chunks", Rest: 1024}, true},
-	{"7/err-with-data", Sched{Kind: "chunks", Rest: 7}, true},
-	{"onebyte/err-follows", Sched{Kind: "onebyte"}, false},
-	{"dataerr-chunks-100", Sched{Kind: "dataerr-chunks", Rest: 100}, false},
-	{"half/err-with-data", Sched{Kind: "half"}, true},
+	{"1024/err-follows", Sched{Kind: "chunks", Rest: 1024}, false, ""},
+	{"1024/err-with-data/then-eof", Sched{Kind: "chunks", Rest: 1024}, true, "eof"},
+	{"7/err-with-data/then-eof", Sched{Kind: "chunks", Rest: 7}, true, "eof"},
+	{"onebyte/err-follows/then-eof", Sched{Kind: "onebyte"}, false, "eof"},
+	{"dataerr-chunks-100/then-eof", Sched{Kind: "dataerr-chunks", Rest: 100}, false, "eof"},
+	{"half/err-with-data", Sched{Kind: "half"}, true, ""},
 }
 
 // faultDoc is the deterministic (seed-independent) document i of the fault enumeration.
@@ -489,7 +495,7 @@ func TestFaultEnumeration(t *testing.T) {
 			for k := 0; k <= len(b.Doc); k++ {
 				c := mkCase(b.Doc)
 				c.Sched = mode.s
-				c.Fault = Fault{At: k, WithData: mode.withData}
+				c.Fault = Fault{At: k, WithData: mode.withData, Then: mode.then}
 				if k%7 == 3 {
 					c.Fault.Err = "unexpected-eof"
 				}
